@@ -97,8 +97,7 @@ def handle (line : String) : String :=
     let cap := if fixed then some capN else none
     match build cap pre p with
     | .err => "err"
-    | .panic true => "panic:internal"
-    | .panic false => "panic"
+    | .panic _ => "panic"
     | .ok bs =>
       let rt := match mirror pre p with
         | none => "na"
